@@ -20,11 +20,14 @@ RULE = ("signal length N in 2..65 (odd and even, every length hit in the thoroug
         "responses from the family const, whole-sample delay, fractional delay, scaled delay, low-pass, high-pass, "
         "one-pole RC (complex), one-sided complex, gaussian, sinc and |f|/(|f|+f0) with an `if f == 0: return <int>` "
         "guard; vectorised (float, int or bool arrays) or scalar-only (TypeError / ValueError on arrays) with the "
-        "RETURN TYPE varying with f: int at DC / float elsewhere, float at DC / complex elsewhere, float where real, "
+        "RETURN TYPE varying with f (or handing out their own stored, possibly read-only, complex table): int at DC / float elsewhere, float at DC / complex elsewhere, float where real, "
         "bool, numpy scalars, 0-d arrays, Python complex; force_real in {False, True}; Signal and FunctionSignal (1..3 stacked filters). A case is "
         "non-trivial when the signal is not identically zero; distinct = distinct (N, dt, offset, values, "
         "response, force_real, class) tuples. Search: N up to 4096 (linearity, homogeneity, identity, offset, "
-        "shift-invariance, Hermitian symmetrisation, energy, delay/drop) on the implementation alone")
+        "shift-invariance, Hermitian symmetrisation, energy, delay/drop) on the implementation alone; samples and times "
+        "also as int64 / float32 arrays, lists, tuples, integer time grids; every case is filtered twice with the "
+        "same response object (nothing remembered, response table and caller arrays untouched), through a copy "
+        "(original, product and with_times handles unchanged) and evaluate-filter-evaluate on one handle")
 LEVEL_TEXT = ("theorems C05_* proved over R/C for every length N>=1, every sampling step dt != 0, every signal and every "
               "response function: the pair-DFT of the model is Mathlib's ZMod.dft (bridge lemma), hence linear, "
               "homogeneous, identity for the unit response, offset-free, force_real = Hermitian symmetrisation "
@@ -86,6 +89,20 @@ def resp_fn(kind, p1, p2, scalar_only=None):
     if mode in ("", "vec"):
         if rtype is None:
             fn = vec
+        elif rtype in ("table", "rotable"):
+            # a response that hands out ITS OWN stored complex table (the same ndarray object on every call)
+            store = {}
+
+            def fn(f):
+                fa = np.asarray(f, dtype=float)
+                key = (fa.shape, fa.tobytes())
+                if key not in store:
+                    r = np.array(vec(fa), dtype=np.complex128)
+                    if rtype == "rotable":
+                        r.flags.writeable = False
+                    store[key] = (r, r.copy())
+                return store[key][0]
+            fn._store = store
         else:
             def fn(f):
                 r = np.asarray(vec(f))
@@ -142,7 +159,7 @@ def random_scalar_only(rng):
     if q < 0.4:
         return None
     if q < 0.5:
-        return rng.choice(["vec:int", "vec:bool"])
+        return rng.choice(["vec:int", "vec:bool", "vec:table", "vec:table", "vec:rotable"])
     so = rng.choice(["TypeError", "ValueError"])
     rt = rng.choice(RTYPES)
     return so if rt is None else "%s:%s" % (so, rt)
@@ -254,8 +271,16 @@ def correspondence(run):
         run.count("force_real" if fr else "no_force_real")
         run.count("scalar_only_" + str(so))
         run.count("cls_" + cls)
+        form = rng.choice(FORMS) if cls == "Signal" else None
+        if form in ("int", "inttimes"):
+            form = "int"
+            vals = np.round(vals / (float(np.max(np.abs(vals))) or 1.0) * 50)
+        elif form == "float32":
+            vals = vals.astype(np.float32).astype(float)
+        vmax = float(np.max(np.abs(vals)))
+        run.count("form_" + str(form))
         if cls == "Signal":
-            sig = ps.Signal(times, vals)
+            sig = ps.Signal(*as_form(times, vals, form))
             try:
                 sig.filter_frequencies(resp_fn(kind, p1, p2, so), force_real=fr)
             except Exception as e:      # noqa: BLE001
@@ -372,9 +397,29 @@ def case_values(case):
     return v * case.get("scale", 1.0)
 
 
-def run_filter(ps, times, vals, fn, fr, cls="Signal"):
+FORMS = [None, None, None, "int", "float32", "list", "tuple", "inttimes"]
+
+
+def as_form(times, vals, form):
+    """the same numbers in another container / dtype"""
+    t, v = np.array(times, dtype=float), np.array(vals, dtype=float)
+    if form == "int":
+        return t, v.astype(np.int64)
+    if form == "float32":
+        return t, v.astype(np.float32)
+    if form == "list":
+        return [float(q) for q in t], [float(q) for q in v]
+    if form == "tuple":
+        return tuple(float(q) for q in t), tuple(float(q) for q in v)
+    if form == "inttimes":
+        return t.astype(np.int64), v.astype(np.int64)
+    return t, v
+
+
+def run_filter(ps, times, vals, fn, fr, cls="Signal", form=None):
     if cls == "Signal":
-        s = ps.Signal(np.array(times, dtype=float), np.array(vals, dtype=float))
+        t, v = as_form(times, vals, form)
+        s = ps.Signal(t, v)
         s.filter_frequencies(fn, force_real=fr)
         return np.array(s.values, dtype=float)
     t = np.array(times, dtype=float)
@@ -406,11 +451,16 @@ def _check_case(run, case):
     times = t0 + dt * np.arange(n)
     dte = float(times[1] - times[0])
     x = case_values(case)
+    form = case.get("form")
+    if form in ("int", "inttimes"):
+        x = np.round(x / (float(np.max(np.abs(x))) or 1.0) * 50)        # integer-valued samples
+    elif form == "float32":
+        x = x.astype(np.float32).astype(float)
     fn = resp_fn(kind, p1, p2, so)
     vmax = float(np.max(np.abs(x))) or 1.0
     gain = max(1.0, resp_max(kind, p1, p2))
     tol = 1e-9 * vmax * gain * max(1.0, math.log2(n))
-    out = run_filter(ps, times, x, fn, fr, cls)
+    out = run_filter(ps, times, x, fn, fr, cls, form)
     which = case.get("oracle", "all")
 
     def fail(name, observed, expected, what, key=None):
@@ -421,6 +471,67 @@ def _check_case(run, case):
     if len(out) != n or not np.all(np.isfinite(out)):
         fail("shape", [len(out)], [n], "filtered values have the wrong length or are not finite")
         return
+    if which in ("all", "reuse"):
+        # the same response object and the same samples again: nothing may be remembered, nothing may have been
+        # written into the response's own table or into the caller's arrays
+        out2 = run_filter(ps, times, x, fn, fr, cls, form)
+        if float(np.max(np.abs(out2 - out))) > 1e-12 * vmax * gain:
+            j = int(np.argmax(np.abs(out2 - out)))
+            fail("reuse", [j, float(out2[j])], [j, float(out[j])],
+                 "filtering the same samples with the same response object a second time gives another result")
+        for r, saved in getattr(fn, "_store", {}).values():
+            if not np.array_equal(r, saved):
+                fail("response-mutated", None, None, "filter_frequencies wrote into the array returned by the "
+                     "response function")
+                break
+        tb, vb = as_form(times, x, form)
+        keep_t, keep_v = np.array(tb, dtype=float), np.array(vb, dtype=float)
+        if cls == "Signal":
+            s0 = ps.Signal(tb, vb)
+            s1 = s0.copy()
+            s1.filter_frequencies(fn, force_real=fr)
+            if not (np.array_equal(np.array(tb, dtype=float), keep_t) and np.array_equal(np.array(vb, dtype=float), keep_v)
+                    and np.array_equal(np.array(s0.values, dtype=float), keep_v)
+                    and np.array_equal(np.array(s0.times, dtype=float), keep_t)):
+                fail("aliasing", None, None, "filtering a copy changed the original signal or the caller's arrays")
+            if float(np.max(np.abs(np.array(s1.values, dtype=float) - out))) > 1e-12 * vmax * gain:
+                fail("aliasing", None, None, "a copied signal filters differently from the original")
+        else:
+            t = np.array(times, dtype=float)
+            v = np.array(x, dtype=float)
+            f0 = ps.FunctionSignal(t.copy(), lambda q: np.interp(q, t, v))
+            _ = f0.values                      # evaluate, then take further handles
+            c1 = f0.copy()
+            m1 = f0 * 2.0
+            w1 = f0.with_times(t.copy())
+            c1.filter_frequencies(fn, force_real=fr)
+            good = (np.allclose(f0.values, v, rtol=0, atol=1e-12 * vmax)
+                    and np.allclose(m1.values, 2 * v, rtol=0, atol=1e-12 * vmax)
+                    and np.allclose(w1.values, v, rtol=0, atol=1e-12 * vmax)
+                    and [len(grp) for grp in f0._filters] == [0] * len(f0._filters))
+            if not good:
+                fail("aliasing", None, None, "filtering a copy of a FunctionSignal changed the original or another "
+                     "handle derived from it (copy / product / with_times)")
+            if float(np.max(np.abs(np.array(c1.values, dtype=float) - out))) > 4 * tol:
+                fail("aliasing", None, None, "a copied FunctionSignal filters differently from the original")
+            # leading / trailing buffers: the filter acts on the extended grid, the window is cut afterwards
+            k1, k2 = int(case.get("vseed", 0) % 4), int((case.get("vseed", 0) // 4) % 3)
+            c0, w0 = float(t[n // 2]), 2.0 * dte
+            pulse = lambda q: vmax * np.exp(-((q - c0) / w0) ** 2)
+            fb = ps.FunctionSignal(t.copy(), pulse)
+            # (buffer lengths half a step short of k samples: the code takes int(buffer/dt) and buffer % dt)
+            fb.set_buffers(leading=max(0.0, (k1 - 0.5) * dte), trailing=max(0.0, (k2 - 0.5) * dte))
+            fb.filter_frequencies(fn, force_real=fr)
+            full = t[0] + dte * np.arange(-k1, n + k2)
+            ref = run_filter(ps, full, pulse(full), fn, fr)[k1:k1 + n]
+            got = np.array(fb.values, dtype=float)
+            if len(got) != n or float(np.max(np.abs(got - ref))) > 1e-6 * vmax * gain:
+                fail("buffers", None, None, "a buffered FunctionSignal is not filtered on its extended grid "
+                     "(leading %d, trailing %d samples)" % (k1, k2))
+            # evaluate - filter - evaluate on one handle
+            f0.filter_frequencies(fn, force_real=fr)
+            if float(np.max(np.abs(np.array(f0.values, dtype=float) - out))) > 4 * tol:
+                fail("stale", None, None, "FunctionSignal.values read before the filter was added is served again")
     if which in ("all", "fallback") and so:
         # the same response, vectorised and uniformly typed: the scalar fall-back / the return type must not matter
         ref = run_filter(ps, times, x, resp_fn(kind, p1, p2, None), fr, cls)
@@ -554,6 +665,14 @@ def gen_case(run, nmax, i):
         case["d"] = d
     else:
         case["resp"] = list(random_response(rng, n, dte, allow_gain=rng.random() < 0.5))
+    case["form"] = rng.choice(FORMS) if case["cls"] == "Signal" else None
+    if case["form"] == "inttimes":
+        # an integer time grid (Signal(range(N), ...)): dt = 1, integer offset
+        case["dt"], case["t0"] = 1.0, float(rng.randint(-1000, 1000))
+        if "d" in case:
+            case["resp"] = ["delay", float(case["d"]), 0.0]
+        else:
+            case["resp"] = list(random_response(rng, n, 1.0, allow_gain=rng.random() < 0.5))
     case["shift"] = rng.randint(1, max(1, n // 2))
     case["c"] = rng.choice([-2.5, 0.5, 3.0, -1.0])
     case["offset"] = float(rng.randint(-10 ** 6, 10 ** 6))
